@@ -17,7 +17,7 @@ RULE = ('Hypothesis grammar documents in which every comment carries a unique wo
         'inside a formula kept verbatim; no MTHk under remove; no DSCk ever), positive directions '
         'at positions visible by construction (keep_comments: every list-level comment outside '
         'math / discarded / non-rendered arguments; verbatim: exact source slice of every visible '
-        'formula; with-delimiters: open, MTHk, close in order; every visible TXTk). Non-trivial = '
+        'formula; with-delimiters: open, MTHk, close in order; every visible TXTk). A math environment inside a formula keeps its own \\begin / \\end. Non-trivial = '
         'document with markers of >= 2 kinds, one of them nested; distinct by (source, options).')
 ASSUMPTIONS = [
     'visible positions: document level, groups, braces of \\textbf/\\emph/\\textit, bodies of '
